@@ -1260,12 +1260,32 @@ func TestVerifRaceGME(t *testing.T) {
 				}(g)
 			}
 		}
+		if lateClose {
+			// ... and while reconfigurations are still being applied
+			wg2.Add(1)
+			go func() {
+				defer wg2.Done()
+				defer func() { recover() }()
+				r2 := vNewRand(env.Seed, "race-gme-late-upd", idx)
+				w2 := &gmWalk{rng: r2, eps: w.eps, up: map[string]bool{}, dials: w.dials, conns: w.conns, hits: map[string]int64{}}
+				_ = w2
+				for atomic.LoadInt32(&stopLate) == 0 {
+					o := &GCPMultiEndpointOptions{GRPCgcpConfig: &pb.ApiConfig{}, Default: "default", DialFunc: w.dialFunc,
+						MultiEndpoints: map[string]*multiendpoint.MultiEndpointOptions{"default": {Endpoints: []string{gmEPNames[r2.Intn(5)], gmEPNames[r2.Intn(5)]}}, fmt.Sprintf("m%d", r2.Intn(3)): {Endpoints: []string{gmEPNames[r2.Intn(5)]}}}}
+					if o.MultiEndpoints["default"].Endpoints[0] == o.MultiEndpoints["default"].Endpoints[1] {
+						o.MultiEndpoints["default"].Endpoints = o.MultiEndpoints["default"].Endpoints[:1]
+					}
+					gme.UpdateMultiEndpoints(o)
+				}
+			}()
+		}
 		wg.Wait()
 		gme.Close()
 		if lateClose {
 			time.Sleep(20 * time.Millisecond)
 			atomic.StoreInt32(&stopLate, 1)
 			wg2.Wait()
+			gme.Close() // pools dialled by updates that overlapped the first Close
 			out.hit("C10.gme-close-during-rpcs")
 		}
 		w.stopServers()
